@@ -210,7 +210,7 @@ class Contract:
     '''Sidecar contract of one real function.'''
     def __init__(self, file, qual, params, returns=None, requires=(), ensures=(), signals=None,
                  signals_post=None, modifies=(), loops=None, attrs=None, kind='function', pure=False,
-                 notes='', ghost=None, frame=(), body_hooks=None, self_type=None, variant=None):
+                 notes='', ghost=None, frame=(), body_hooks=None, self_type=None, variant=None, lemmas=()):
         self.file, self.qual = file, qual
         self.params = params            # ordered {name: type string}
         self.returns = returns
@@ -225,6 +225,7 @@ class Contract:
         self.notes = notes
         self.frame = list(frame)
         self.variant = variant
+        self.lemmas = list(lemmas)    # [(label, expr)]: proved at the end of a normal path, then usable by the postconditions (cut)
 
     @property
     def name(self):
@@ -274,7 +275,10 @@ class Interp:
         self.heap[obj.oid]['fields'][name] = value
 
     def fresh(self, typ, base):
-        return fresh(typ, self.path.name(base))
+        v = fresh(typ, self.path.name(base))
+        if v.typ.kind == 'Seq':
+            self.path.assume(seq_len(v) >= 0)       # len() of a Python sequence is never negative
+        return v
 
     # ------------------------------------------------------------------ truthiness
     def truth(self, v):
@@ -604,7 +608,8 @@ class Interp:
         kwargs = {}
         for kw in node.keywords:
             if kw.arg is None:
-                raise Undecided('**kwargs')
+                kwargs['**'] = self.eval(kw.value, scope)
+                continue
             kwargs[kw.arg] = self.eval(kw.value, scope)
         return self.call(func, args, kwargs, node)
 
@@ -675,6 +680,15 @@ class Interp:
         defaults = a.defaults
         new = Scope(scope)
         pos = list(args)
+        star = kwargs.pop('**', None)
+        if star is not None:
+            if isinstance(star, dict):
+                kwargs.update(star)
+            elif a.kwarg is not None and not kwargs:
+                kwargs = {}
+                new.set(a.kwarg.arg, star)
+            else:
+                raise Undecided('** of a symbolic mapping into named parameters')
         if self_value is not None:
             pos = [self_value] + pos
         if len(pos) > len(names) and a.vararg is None:
@@ -706,6 +720,8 @@ class Interp:
                 new.set(a.kwarg.arg, dict(kwargs))
             else:
                 raise Undecided(f'unexpected keyword arguments {list(kwargs)}')
+        elif a.kwarg is not None and not new.has(a.kwarg.arg):
+            new.set(a.kwarg.arg, {})
         return new
 
     def inline(self, func, args, kwargs):
@@ -779,6 +795,8 @@ class Interp:
             self.havoc_path(m, scope)
         if c.returns is None:
             result = None
+        elif c.returns == '=self':
+            result = recv
         else:
             result = self.world.fresh_value(self, c.returns, 'ret_' + c.qual.split('.')[-1])
         scope.set('result', result)
